@@ -79,6 +79,15 @@ def main():
     for fn in sorted(os.listdir(HERE)):
         if fn.endswith(".json") and fn.startswith("mutants"):
             cases += json.load(open(os.path.join(HERE, fn)))
+    # a behaviour-preserving refactoring must leave every property's check silent: one case per property
+    expanded = []
+    for c in cases:
+        if c.get("prop") == "*":
+            for i in range(1, 21):
+                expanded.append({**c, "prop": f"C{i:02d}", "id": f"{c['id']}@C{i:02d}"})
+        else:
+            expanded.append(c)
+    cases = expanded
     if a.prop: cases = [c for c in cases if c["prop"] == a.prop]
     if a.id: cases = [c for c in cases if a.id in c["id"]]
     with ThreadPoolExecutor(a.jobs) as ex:
